@@ -48,8 +48,9 @@ OPS = [
                               '#[allow(unused_imports)] use crate::verif_ext::*;\n'
                               '#[allow(unused_imports)] use crate::verif_spec::*;\n'
                               '#[allow(unused_imports)] use crate::verif_tables::*;\n'
-                              '#[allow(unused_imports)] use vstd::future::FutureAdditionalSpecFns;\n'
-                              'verus! { broadcast use crate::verif_ext::group_ipp_seq; }'},
+                              '#[allow(unused_imports)] use crate::verif_machine::*;\n'
+                              '#[allow(unused_imports)] use vstd::future::FutureAdditionalSpecFns;\n#[allow(unused_imports)] use vstd::std_specs::iter::IteratorSpec;\n'
+                              'verus! { broadcast use {crate::verif_ext::group_ipp_seq, crate::verif_ext::axiom_string_key_model, vstd::std_specs::hash::group_hash_axioms, crate::verif_machine::group_ipp_machine, vstd::std_specs::btree::group_btree_axioms}; }'},
     {'op': 'wrap', 'items': ['enum IppParseError', 'fn list_or_value', 'struct ParserState', 'impl ParserState',
                              'struct IppParser', 'impl IppParser', 'struct AsyncIppParser', 'impl AsyncIppParser']},
     {'op': 'append', 'text': '''verus! {
@@ -61,16 +62,76 @@ impl<R> AsyncIppParser<R> {
     /// bytes the underlying stream will still deliver (ghost)
     pub closed spec fn rest(&self) -> Seq<u8> { self.reader.rest() }
 }
+
+/// abstraction of a group held by the parser: delimiter and name -> abstract value
+pub open spec fn abs_mgroup(g: IppAttributeGroup) -> MGroup {
+    (g.stag(), Map::new(g.sattrs().dom(), |k: String| aval(g.sattrs()[k].sval())))
+}
+
+impl ParserState {
+    /// abstraction function: the RFC-level machine state this parser state stands for
+    spec fn abs(&self) -> MState {
+        MState {
+            groups: self.attributes.sgroups().map_values(|g: IppAttributeGroup| abs_mgroup(g)),
+            cur: match self.current_group { Some(g) => Some(abs_mgroup(g)), None => None },
+            name: self.last_name,
+            stack: self.context@.map_values(|l: Vec<IppValue>| abs_vals(l@)),
+        }
+    }
+}
 } // verus!'''},
     {'op': 'item_attr', 'item': 'enum IppParseError', 'text': '#[verifier::external_derive]'},
-    {'op': 'fn', 'path': 'list_or_value', 'ret': 'r'},
-    {'op': 'fn', 'path': 'ParserState::new', 'ret': 'r'},
-    {'op': 'fn', 'path': 'ParserState::add_last_attribute'},
+    {'op': 'fn', 'path': 'list_or_value', 'ret': 'r',
+     'spec': '    ensures aval(r) == lov(abs_vals(list@)),'},
+    {'op': 'fn', 'path': 'ParserState::new', 'ret': 'r',
+     'spec': '    ensures ({ let a = r.abs(); let b = m_init(); a.groups =~= b.groups && a.cur =~~= b.cur && a.name == b.name && a.stack =~~= b.stack }),'},
+    {'op': 'fn', 'path': 'ParserState::add_last_attribute',
+     'spec': '''    ensures
+        old(self).abs().stack.len() >= 1 ==> ({ let a = final(self).abs(); let b = m_flush(old(self).abs()); a.groups =~= b.groups && a.cur =~~= b.cur && a.name == b.name && a.stack =~~= b.stack }),'''},
     {'op': 'fn', 'path': 'ParserState::parse_delimiter', 'ret': 'r',
      'spec': """    ensures
         r is Ok <==> delimiter_tag_of(tag as int) is Some,
-        r is Ok ==> Some(r->Ok_0) == delimiter_tag_of(tag as int),""",
+        r is Ok ==> Some(r->Ok_0) == delimiter_tag_of(tag as int),
+        r is Ok && m_delim_legal(old(self).abs()) ==> ({ let a = final(self).abs(); let b = m_delim(old(self).abs(), r->Ok_0); a.groups =~= b.groups && a.cur =~~= b.cur && a.name == b.name && a.stack =~~= b.stack }),""",
      'proofs': [{'before': 'let tag = DelimiterTag::from_u8', 'optional': True,
                  'text': 'proof { axiom_delimiter_tag_from(tag as int); }'}]},
-    {'op': 'fn', 'path': 'ParserState::parse_value', 'ret': 'r'},
+    {'op': 'fn', 'path': 'ParserState::parse_value', 'ret': 'r',
+     'spec': '''    ensures
+        m_value_legal(old(self).abs(), tag, name, buf_seq(&value)) ==> r is Ok && ({ let a = final(self).abs(); let b = m_value(old(self).abs(), tag, name, buf_seq(&value)); a.groups =~= b.groups && a.cur =~~= b.cur && a.name == b.name && a.stack =~~= b.stack }),''',
+     'loops': {0: {'iter_name': 'it', 'spec': '''
+        invariant
+            it.snapshot@.remaining() == arr0,
+            vstd::laws_cmp::obeys_cmp::<String>(),
+            ({ let acc = pair_fold(abs_vals(arr0), it.index@ as nat);
+               abs_map(map@) =~= acc.0 && name == acc.1 && abs_vals(values@) =~= acc.2 }),
+'''}},
+     'proofs': [
+         {'at_start': True, 'text': '''let ghost s0 = self.abs(); let ghost body = buf_seq(&value);
+        let ghost legal = m_value_legal(s0, tag, name, body); let ghost nm = name;'''},
+         {'before': 'if tag == ValueTag::BegCollection as u8 {', 'optional': True, 'text': '''
+        let ghost s1 = if nm@.len() > 0 { let f = m_flush(s0); MState { groups: f.groups, cur: f.cur, name: Some(nm), stack: f.stack } } else { s0 };
+        proof { if legal { let a = self.abs(); assert(a.groups =~= s1.groups && a.cur =~~= s1.cur && a.name == s1.name && a.stack =~~= s1.stack); assert(a == s1); } }
+'''},
+         {'after': 'self.context.push(vec![]);', 'optional': True, 'text': '''
+            proof { if legal { let a = self.abs(); let b = m_value(s0, tag, nm, body); assert(a.stack =~~= b.stack); } }'''},
+         {'before': 'let mut map: BTreeMap<String, IppValue>', 'optional': True,
+          'text': 'let ghost arr0 = arr@; proof { axiom_string_obeys_cmp(); }'},
+         {'before': 'if let IppValue::MemberAttrName(k) = v {', 'optional': True, 'text': '''
+                        let ghost i = it.index@; let ghost av = abs_vals(arr0); let ghost acc = pair_fold(av, i as nat);
+                        proof { assert(v == arr0[i]); assert(av[i] == aval(v)); }
+'''},
+         {'before': 'name = Some(k);', 'optional': True, 'text': '''
+                            proof { assert(aval(v) == AVal::Text { tag: T_MEMBERNAME, s: k@ }); assert(abs_map(map@) =~= pair_flush(acc)); }
+'''},
+         {'after': 'values.push(v);', 'optional': True, 'text': '''
+                            proof { assert(abs_vals(values@) =~= acc.2.push(aval(v))); }'''},
+         {'before': 'val_list.push(IppValue::Collection(map));', 'optional': True, 'text': '''
+                    proof { if legal { assert(abs_map(map@) =~= pair_map(abs_vals(arr0))); } }
+'''},
+         {'after': 'val_list.push(IppValue::Collection(map));', 'optional': True, 'text': '''
+                    proof { if legal { let a = self.abs(); let b = m_value(s0, tag, nm, body);
+                        assert(abs_vals(arr0) =~= s1.stack.last()); assert(a.stack =~~= b.stack); } }'''},
+         {'after': 'val_list.push(ipp_value);', 'optional': True, 'text': '''
+            proof { if legal { let a = self.abs(); let b = m_value(s0, tag, nm, body); assert(a.stack =~~= b.stack); } }'''},
+     ]},
 ] + _front('IppParser') + _front('AsyncIppParser')
